@@ -1,8 +1,12 @@
 (* C06 -- property theorems.  Statements only; every proof is `exact <lemma>`. *)
 From Coq Require Import ZArith List Bool.
 Import ListNotations.
+Set Warnings "-notation-overridden".
+Require Import EmbossV.Bits.Model.
 Require Import EmbossV.Text.IntCodec EmbossV.Text.ProofsInt EmbossV.Text.ProofsBuffer EmbossV.Text.ProofsToken EmbossV.Text.StructText
-               EmbossV.Text.ProofsStruct EmbossV.Text.ProofsArray EmbossV.Text.ProofsRoundtrip.
+               EmbossV.Text.ProofsStruct EmbossV.Text.ProofsArray EmbossV.Text.ProofsRoundtrip
+               EmbossV.Text.Store EmbossV.Text.ProofsStore.
+Set Warnings "+notation-overridden".
 Open Scope Z_scope.
 
 (* ---------------- integer text codec ---------------- *)
@@ -157,9 +161,15 @@ Theorem array_roundtrip : forall (W : Type) (tw : list pelem -> wv -> W -> optio
             snd s = [].
 Proof. exact array_roundtrip_lem. Qed.
 
-(* struct_roundtrip_partial: the gap is the storage step Hstore (TryToWrite calls of the emitted
-   fields, performed in dependency order on the zeroed buffer, succeed and read back) -- layout
-   semantics of C01/C03 and the order of C15. *)
+(* struct_roundtrip_partial: for an ABSTRACT store the storage step is the hypothesis Hstore (TryToWrite
+   calls of the emitted fields, performed in dependency order on the zeroed buffer, succeed and read
+   back).  It is discharged below for the concrete byte store (struct_roundtrip_static, no storage
+   hypothesis; struct_roundtrip_dynamic, no hypothesis, offsets = constant + fields and conditions =
+   conjunctions of field tests; struct_roundtrip_dependent, any layout function, only `determined`).
+   What remains `_partial`: writable virtual fields (TryToWrite through the inverse transform, C03
+   invert_correct), signed enums (finding F1), Float fields, location / condition expressions outside
+   the language of dyn_layout (their link to the expression semantics of C01 is the hypothesis
+   `determined`), arrays whose element count depends on a field (schema_of fixes the count). *)
 Theorem struct_roundtrip_partial :
   forall (W : Type) (tw : list pelem -> wv -> W -> option W) (rd : list pelem -> W -> option wv)
          g o fs zeroed restored fuel,
@@ -170,6 +180,86 @@ Theorem struct_roundtrip_partial :
               = UOk s restored /\ snd s = [] /\
               (forall p x, In (p, x) (events_of g [] (VStruct fs)) -> rd p restored = Some x).
 Proof. exact struct_roundtrip_partial_lem. Qed.
+
+(* ---------------- structures: the storage step, for the concrete byte store ---------------- *)
+(* Text/Store.v: the store is the byte buffer; TryToWrite / Read at a path are the scalar views of
+   Bits/Model.v (C02/C03: BitBlock / OffsetBitBlock over the container's bytes, byte order, range checks)
+   at the location a LAYOUT gives for the path: store_tw L, store_rd L.
+
+   struct_roundtrip_static: NO storage hypothesis.  For every structure value whose written (emitted,
+   writable) leaves -- UInt, Int, Bcd, Flag, unsigned enums; at top level, inside nested structures,
+   inside `bits`, as array elements -- have locations in a table `tab` that fit a buffer of n bytes, hold
+   the value (layout_okb: range of the field's width, the view's value type) and are pairwise disjoint
+   (disjoint containers, or disjoint bit ranges of one `bits` container): UpdateFromText of
+   WriteToString's text into the ZEROED buffer of n bytes returns true, consumes the text, and every
+   emitted field reads back the value that was written. *)
+Theorem struct_roundtrip_static : forall g o fs n tab fuel,
+  wf_val g (VStruct fs) -> opts_ok o -> (need (VStruct fs) <= fuel)%nat ->
+  layout_okb n tab (events_of g [] (VStruct fs)) = true ->
+  exists s restored,
+    update_from_text (list Z) (store_tw (static_layout tab)) fuel (schema_of (VStruct fs))
+                     (write_to_string g o (VStruct fs)) (zeros n) = UOk s restored /\ snd s = [] /\ length restored = n /\
+    (forall p x, In (p, x) (events_of g [] (VStruct fs)) -> store_rd (static_layout tab) p restored = Some x).
+Proof. exact struct_roundtrip_static_lem. Qed.
+
+(* struct_roundtrip_dependent: locations that depend on the buffer (dynamic offsets, conditional fields,
+   fields of nested structures at dynamic offsets).  L gives the location of a path IN THE CURRENT
+   BUFFER.  The only hypothesis about L is `determined`: when a field is about to be written, its
+   location in the buffer being restored is fixed by the fields written before it (= emitted before it:
+   emission order is dependency order, C15) and equals its location `tab` in the view the text was
+   written from.  No hypothesis about the writes themselves. *)
+Theorem struct_roundtrip_dependent : forall g o fs n L tab fuel,
+  wf_val g (VStruct fs) -> opts_ok o -> (need (VStruct fs) <= fuel)%nat ->
+  layout_okb n tab (events_of g [] (VStruct fs)) = true ->
+  determined n L tab (events_of g [] (VStruct fs)) ->
+  exists s restored,
+    update_from_text (list Z) (store_tw L) fuel (schema_of (VStruct fs)) (write_to_string g o (VStruct fs)) (zeros n)
+      = UOk s restored /\ snd s = [] /\ length restored = n /\
+    (forall p x, In (p, x) (events_of g [] (VStruct fs)) -> store_rd L p restored = Some x).
+Proof. exact struct_roundtrip_dependent_lem. Qed.
+
+(* struct_roundtrip_dynamic: NO hypothesis about the layout function either, for the dependent layouts of
+   Text/Store.v (dyn_layout): the byte offset of a field's container is a constant plus the values of
+   integer fields (fields located by a pointer field, fields of a structure at such an offset), and the
+   field exists when a conjunction of tests `field == constant` / `flag` / `!flag` on other fields holds
+   (conditional fields; the conditions of the enclosing structures are part of the conjunction).
+   TryToWrite and Read evaluate offsets and conditions ON THE BUFFER BEING RESTORED (reading the fields
+   they refer to, whose own locations are evaluated the same way).  `resolve dt [] evs` is the static
+   table the layout denotes in the view the text was written from: each written field's location,
+   evaluated with the values of the fields written BEFORE it -- so layout_okb of that table contains
+   "every field a written field depends on is written before it" (fields_in_dependency_order, C15; a
+   field some other field depends on must not be marked Skip). *)
+Theorem struct_roundtrip_dynamic : forall g o fs n dt fuel lfuel,
+  wf_val g (VStruct fs) -> opts_ok o -> (need (VStruct fs) <= fuel)%nat ->
+  (length (events_of g [] (VStruct fs)) <= lfuel)%nat ->
+  layout_okb n (resolve dt [] (events_of g [] (VStruct fs))) (events_of g [] (VStruct fs)) = true ->
+  exists s restored,
+    update_from_text (list Z) (store_tw (dyn_layout lfuel dt)) fuel (schema_of (VStruct fs))
+                     (write_to_string g o (VStruct fs)) (zeros n) = UOk s restored /\ snd s = [] /\ length restored = n /\
+    (forall p x, In (p, x) (events_of g [] (VStruct fs)) -> store_rd (dyn_layout lfuel dt) p restored = Some x).
+Proof. exact struct_roundtrip_dynamic_lem. Qed.
+
+Theorem dyn_layout_determined : forall n fuel dt evs,
+  (length evs <= fuel)%nat ->
+  layout_okb n (resolve dt [] evs) evs = true ->
+  determined n (dyn_layout fuel dt) (resolve dt [] evs) evs.
+Proof. exact dyn_determined_lem. Qed.
+
+(* the storage step alone (Hstore of struct_roundtrip_partial), for any sequence of writes *)
+Theorem store_roundtrip : forall n L tab evs,
+  layout_okb n tab evs = true -> determined n L tab evs ->
+  exists restored, apply_events (list Z) (store_tw L) evs (zeros n) = Some restored /\ length restored = n /\
+                   (forall p x, In (p, x) evs -> store_rd L p restored = Some x).
+Proof. exact store_roundtrip_lem. Qed.
+
+(* one TryToWrite: it succeeds, the field reads back, every location apart from it is untouched *)
+Theorem store_write_frame : forall n l x root, length root = n -> Forall byte root -> loc_fitsb n l = true -> val_okb l x = true ->
+  exists bs, loc_try_write l x root = Some (true, Some bs) /\
+    length (splice root (l_boff l) bs) = n /\ Forall byte (splice root (l_boff l) bs) /\
+    loc_read l (splice root (l_boff l) bs) = Some x /\
+    (forall l2, loc_fitsb n l2 = true -> loc_apartb l2 l = true ->
+                loc_read l2 (splice root (l_boff l) bs) = loc_read l2 root).
+Proof. exact write_one. Qed.
 
 Theorem events_emitted : forall g path fi fv pre post,
   emits_value g fi = true ->
@@ -191,6 +281,26 @@ Example example_roundtrip_single_line :
   exists s w, update_from_text (list event) ex_rec 40 (schema_of ex_view) (write_to_string gt_std ex_opts_single ex_view) []
               = UOk s w /\ snd s = [] /\ rev w = events_of gt_std [] ex_view.
 Proof. exact ex_roundtrip_single. Qed.
+
+(* a 6-byte structure with a big-endian UInt:16, an Int:8, a little-endian `bits` with a Flag, a UInt:5 and a
+   Bcd:8, and an enum: in the class of struct_roundtrip_static; the restored bytes *)
+Example example_store_roundtrip :
+  wf_val gt_std ex_sview /\ opts_ok ex_sopts /\
+  layout_okb 6 ex_stab (events_of gt_std [] ex_sview) = true /\
+  length (events_of gt_std [] ex_sview) = 6%nat /\
+  exists s, update_from_text (list Z) (store_tw (static_layout ex_stab)) 40 (schema_of ex_sview)
+              (write_to_string gt_std ex_sopts ex_sview) (zeros 6) = UOk s [190; 239; 254; 43; 66; 200] /\ snd s = [].
+Proof. exact ex_store. Qed.
+
+(* a structure with a conditional field and a field located by a pointer field: in the class of
+   struct_roundtrip_dynamic; the pointer-located field resolves to byte 5; the restored bytes *)
+Example example_dynamic_roundtrip :
+  wf_val gt_std ex_dview /\
+  layout_okb 6 (resolve ex_dtab [] (events_of gt_std [] ex_dview)) (events_of gt_std [] ex_dview) = true /\
+  tab_loc (resolve ex_dtab [] (events_of gt_std [] ex_dview)) [PField [121]] = Some (mk_loc LE 5 1 None SInt (mk_ity true W8)) /\
+  exists s, update_from_text (list Z) (store_tw (dyn_layout 4 ex_dtab)) 40 (schema_of ex_dview)
+              (write_to_string gt_std ex_sopts ex_dview) (zeros 6) = UOk s [1; 52; 18; 5; 0; 255] /\ snd s = [].
+Proof. exact ex_dyn. Qed.
 
 Example example_codec :
   encode_int (mk_ity true W8) (-128) 2 true = Ok [45; 48; 98; 49; 48; 48; 48; 48; 48; 48; 48] /\
